@@ -331,3 +331,111 @@ pub open spec fn d_script(s: Seq<u8>) -> Dec<EcB> {
         Dec::Unknown => Dec::Unknown,
     }
 }
+
+// ---- sequencing of decoders ----------------------------------------------------------------------------
+pub open spec fn bind<A, B>(d: Dec<A>, f: spec_fn(A, Seq<u8>) -> Dec<B>) -> Dec<B> {
+    match d {
+        Dec::Ok(a, r) => f(a, r),
+        Dec::Fail => Dec::Fail,
+        Dec::Unknown => Dec::Unknown,
+    }
+}
+
+// ---- Transition ------------------------------------------------------------------------------------------
+pub struct TransV {
+    pub id: u32,
+    pub doc_id: u32,
+    pub source: u32,
+    pub target: Seq<u32>,
+    pub events: Seq<Seq<u8>>,
+    pub ttype: u8,
+    pub wildcard: bool,
+    /// the guard; `Data::Null()` when the record carries none
+    pub cond: Data,
+    pub content: u32,
+}
+
+pub open spec fn trv(t: Transition) -> TransV {
+    TransV {
+        id: t.id, doc_id: t.doc_id, source: t.source, target: t.target@, events: strs_v(t.events@),
+        ttype: transition_type_ordinal(t.transition_type), wildcard: t.wildcard, cond: t.cond, content: t.content,
+    }
+}
+
+pub open spec fn d_opt_data(present: bool, s: Seq<u8>) -> Dec<Data> {
+    if present { d_data(s) } else { Dec::Ok(data_null(), s) }
+}
+
+pub open spec fn d_opt_id(present: bool, s: Seq<u8>) -> Dec<u32> {
+    if present { d_id(s) } else { Dec::Ok(0u32, s) }
+}
+
+/// progress of a record reader: `total` is the decoding of the whole record from where the function started, `cont`
+/// the decoding of what is still to be read, with the fields read so far filled in
+pub open spec fn prog<T>(total: Dec<T>, ok: bool, rel: bool, cont: Dec<T>) -> bool {
+    total is Unknown || ((ok ==> cont == total) && (!ok ==> !(total is Ok && rel)))
+}
+
+pub open spec fn d_transition(s: Seq<u8>) -> Dec<TransV> {
+    match d_id(s) {
+        Dec::Ok(id, s1) => d_tr1(id, s1),
+        Dec::Fail => Dec::Fail,
+        Dec::Unknown => Dec::Unknown,
+    }
+}
+
+pub open spec fn d_tr1(id: u32, s: Seq<u8>) -> Dec<TransV> {
+    match d_id(s) {
+        Dec::Ok(doc, s1) => d_tr2(id, doc, s1),
+        Dec::Fail => Dec::Fail,
+        Dec::Unknown => Dec::Unknown,
+    }
+}
+
+pub open spec fn d_tr2(id: u32, doc: u32, s: Seq<u8>) -> Dec<TransV> {
+    match d_id(s) {
+        Dec::Ok(src, s1) => d_tr3(id, doc, src, s1),
+        Dec::Fail => Dec::Fail,
+        Dec::Unknown => Dec::Unknown,
+    }
+}
+
+pub open spec fn d_tr3(id: u32, doc: u32, src: u32, s: Seq<u8>) -> Dec<TransV> {
+    match d_list(s, fd_id()) {
+        Dec::Ok(tg, s1) => d_tr4(id, doc, src, tg, s1),
+        Dec::Fail => Dec::Fail,
+        Dec::Unknown => Dec::Unknown,
+    }
+}
+
+pub open spec fn d_tr4(id: u32, doc: u32, src: u32, tg: Seq<u32>, s: Seq<u8>) -> Dec<TransV> {
+    match d_list(s, fd_str()) {
+        Dec::Ok(ev, s1) => d_tr5(id, doc, src, tg, ev, s1),
+        Dec::Fail => Dec::Fail,
+        Dec::Unknown => Dec::Unknown,
+    }
+}
+
+pub open spec fn d_tr5(id: u32, doc: u32, src: u32, tg: Seq<u32>, ev: Seq<Seq<u8>>, s: Seq<u8>) -> Dec<TransV> {
+    match d_uint(s) {
+        Dec::Ok(fl, s1) => d_tr6(id, doc, src, tg, ev, fl as u8, s1),
+        Dec::Fail => Dec::Fail,
+        Dec::Unknown => Dec::Unknown,
+    }
+}
+
+pub open spec fn d_tr6(id: u32, doc: u32, src: u32, tg: Seq<u32>, ev: Seq<Seq<u8>>, fl: u8, s: Seq<u8>) -> Dec<TransV> {
+    match d_opt_data((fl & 4) != 0, s) {
+        Dec::Ok(c, s1) => d_tr7(id, doc, src, tg, ev, fl, c, s1),
+        Dec::Fail => Dec::Fail,
+        Dec::Unknown => Dec::Unknown,
+    }
+}
+
+pub open spec fn d_tr7(id: u32, doc: u32, src: u32, tg: Seq<u32>, ev: Seq<Seq<u8>>, fl: u8, c: Data, s: Seq<u8>) -> Dec<TransV> {
+    match d_opt_id((fl & 8) != 0, s) {
+        Dec::Ok(ct, s1) => Dec::Ok(TransV { id: id, doc_id: doc, source: src, target: tg, events: ev, ttype: fl & 1, wildcard: (fl & 2) != 0, cond: c, content: ct }, s1),
+        Dec::Fail => Dec::Fail,
+        Dec::Unknown => Dec::Unknown,
+    }
+}
